@@ -55,6 +55,12 @@ def setup_worker():
     import smartquery
     d = tempfile.mkdtemp(prefix='sqv-c02-', dir='/tmp')
     os.chdir(d)
+    import atexit
+    import shutil
+    import multiprocessing.util as mpu
+    # removed when the worker exits (multiprocessing workers skip atexit, so register a Finalize as well)
+    atexit.register(shutil.rmtree, d, True)
+    mpu.Finalize(None, shutil.rmtree, args=(d, True), exitpriority=1)
     try:
         resource.setrlimit(resource.RLIMIT_FSIZE, (1 << 20, 1 << 20))
     except (ValueError, OSError):
